@@ -92,7 +92,7 @@ def get_seed():
 # ---------------------------------------------------------------- building the Coq side
 def sh(cmd, cwd=None, timeout=None, env=None, check=False, input=None):
     p = subprocess.run(cmd, cwd=cwd, timeout=timeout, env=env, input=input,
-                       stdout=subprocess.PIPE, stderr=subprocess.STDOUT, text=True)
+                       stdout=subprocess.PIPE, stderr=subprocess.STDOUT, text=True, errors="replace")
     if check and p.returncode != 0:
         raise RuntimeError("command failed: %s\n%s" % (cmd, p.stdout))
     return p.returncode, p.stdout
@@ -371,7 +371,7 @@ def run_impl(binary, lines, timeout=1800, env=None, extra_args=()):
     with open(cf, "w") as f:
         f.write("\n".join(lines) + "\n")
     try:
-        p = subprocess.run([binary] + list(extra_args) + [cf, of], stdout=subprocess.PIPE, stderr=subprocess.STDOUT, text=True,
+        p = subprocess.run([binary] + list(extra_args) + [cf, of], stdout=subprocess.PIPE, stderr=subprocess.STDOUT, text=True, errors="replace",
                            timeout=timeout, env=env)
     except subprocess.TimeoutExpired:
         shutil.rmtree(td, ignore_errors=True)
@@ -408,7 +408,8 @@ def run_impl_watch(binary, lines, stall=20, env=None, marker="NOLOG", max_culpri
         cf, of = os.path.join(td, "cases.txt"), os.path.join(td, "out.txt")
         with open(cf, "w") as f:
             f.write("\n".join(lines[pos:]) + "\n")
-        p = subprocess.Popen([binary, cf, of], stdout=subprocess.PIPE, stderr=subprocess.STDOUT, text=True, env=env)
+        sof = os.path.join(td, "stdout.txt")   # not a pipe: nobody drains it while the process runs
+        p = subprocess.Popen([binary, cf, of], stdout=open(sof, "w"), stderr=subprocess.STDOUT, env=env)
         last_n, last_t = -1, _t.time()
         reason = None
         while True:
@@ -435,7 +436,7 @@ def run_impl_watch(binary, lines, stall=20, env=None, marker="NOLOG", max_culpri
         if got and got[-1] == "":
             got.pop()
         if reason is None and p.returncode != 0:
-            reason = "the harness process died: " + " ".join((p.stdout.read() or "")[-300:].split())
+            reason = "the harness process died: " + " ".join(open(sof, errors="replace").read()[-300:].split())
         shutil.rmtree(td, ignore_errors=True)
         if reason is None and len(got) == len(lines) - pos:
             out += got
